@@ -14,7 +14,7 @@ use rtcp_types::RtcpWriteError;
 use std::sync::atomic::{AtomicBool, Ordering};
 
 pub fn hows(i: usize) -> How {
-    How { owned: i & 1 == 1, wrap: i & 2 == 2, probe: i & 4 == 4 }
+    crate::drive::hows(i)
 }
 fn pk(cfg: &Cfg) -> &'static str {
     if cfg.padding() > 0 {
@@ -394,7 +394,7 @@ pub fn workload(
     }
     // 2a. relational configurations, each through all four construction routes
     for c in relational_cfgs() {
-        for h in 0..8 {
+        for h in 0..crate::drive::ROUTES {
             force.set(Some(h));
             go(ctx, &c);
         }
@@ -913,7 +913,7 @@ fn limit_sweep(ctx: &mut Ctx, shard: usize, nshards: usize) {
             if big {
                 idx.set(idx.get() + 1);
                 if idx.get() % nshards == shard {
-                    check_c16(ctx, &c, How { owned: idx.get() / nshards % 2 == 1, wrap: false, probe: false });
+                    check_c16(ctx, &c, How { owned: idx.get() / nshards % 2 == 1, ..How::default() });
                 }
             } else {
                 go(ctx, c)
